@@ -12,15 +12,32 @@ func (s *State) Stack() []string {
 	if s.depth <= 1 {
 		return nil
 	}
-	stack := make([]string, 0, s.depth-1)
+	// Only the frames that LimitStack keeps are named: naming prints the whole function, and an error object is made
+	// at every level while a deep recursion unwinds (after a deadline for instance).
+	const limit = 10
+	frames := make([]*object.Environment, 0, limit)
 	for e := s.env; e != nil; e = e.StackParent() {
-		n := e.Name()
-		if n != "" {
-			stack = append(stack, e.Name())
+		if e.HasName() {
+			frames = append(frames, e)
 		}
 	}
-	limited := LimitStack(stack, 10)
-	log.Debugf("Stack() len %d, depth %d returning %v", len(stack), s.depth, limited)
+	if len(frames) <= limit {
+		stack := make([]string, 0, len(frames))
+		for _, e := range frames {
+			stack = append(stack, e.Name())
+		}
+		return stack
+	}
+	half := limit / 2
+	limited := make([]string, 0, limit+1)
+	for _, e := range frames[:half] {
+		limited = append(limited, e.Name())
+	}
+	limited = append(limited, fmt.Sprintf("... %d more ...", len(frames)-half*2))
+	for _, e := range frames[len(frames)-half:] {
+		limited = append(limited, e.Name())
+	}
+	log.Debugf("Stack() len %d, depth %d returning %v", len(frames), s.depth, limited)
 	return limited
 }
 
